@@ -24,6 +24,8 @@
 (*   insts    filesystem instances ever constructed: [cfg, epoch]          *)
 (*   live     mountpoint -> sequence of instances that have it mounted     *)
 (*            (mount tables of the instances of the running process)       *)
+(*   liveLab  mountpoint -> label set of the filesystem-level mount that is  *)
+(*            live on it ("none" if not mounted)                           *)
 (*   epoch    manager process number, ninit number of Init requests so far *)
 (* History (maintained identically by the trace monitor from observations) *)
 (*   hist     inited     an Init request returned in this epoch            *)
@@ -32,6 +34,9 @@
 (*                       returned with an error ({} if it returned ok)     *)
 (*            okCfg      config tag of the last Init iff it returned ok    *)
 (*            anyFs      a filesystem was constructed in this epoch        *)
+(*            reqLab     mountpoint -> label set of the last request that   *)
+(*                       was told "ok, mounted" for it while it is served   *)
+(*                       (Mount request, or the restoring mount of Init)    *)
 (*   last     observation: request, arguments, result, filesystem calls    *)
 (*                                                                         *)
 (* Environment nondeterminism is an ARGUMENT of the action: which step of  *)
@@ -68,12 +73,13 @@ CONSTANTS
     UseCreator,         \* Check/Unmount use the instance in fsMap (FALSE = curFs)
     AdoptNewFs,         \* Init makes the new filesystem curFs
     RestoreOnInit,      \* Init calls restoreFuseInfo
-    UnknownUnmountOK_G  \* Unmount of an unknown, unmounted mountpoint returns ok
+    UnknownUnmountOK_G, \* Unmount of an unknown, unmounted mountpoint returns ok
+    OverwriteRecord     \* storeFuseInfo replaces an existing record of the mountpoint (bucket.Put)
 
-VARIABLES status, cfg, cur, fsMap, store, insts, live, epoch, ninit, hist, last
+VARIABLES status, cfg, cur, fsMap, store, insts, live, liveLab, epoch, ninit, hist, last
 
-core == <<status, cfg, cur, fsMap, store, insts, live, epoch, ninit, hist>>
-vars == <<status, cfg, cur, fsMap, store, insts, live, epoch, ninit, hist, last>>
+core == <<status, cfg, cur, fsMap, store, insts, live, liveLab, epoch, ninit, hist>>
+vars == <<status, cfg, cur, fsMap, store, insts, live, liveLab, epoch, ninit, hist, last>>
 
 \* mountpoints as a sequence in bolt key order (= the order in which restoreFuseInfo walks the bucket), and as a set
 MpOrder == [i \in 1..NMp |-> "m" \o ToString(i)]
@@ -93,14 +99,25 @@ RemoveOne(s, x) ==
     ELSE LET k == Min(idx) IN [i \in 1..(Len(s) - 1) |-> IF i < k THEN s[i] ELSE s[i + 1]]
 HasMounted(i, m) == i \in Range(live[m])
 
-NoHist == [inited |-> FALSE, initErr |-> FALSE, unrestored |-> {}, okCfg |-> 0, anyFs |-> FALSE]
+NoHist == [inited |-> FALSE, initErr |-> FALSE, unrestored |-> {}, okCfg |-> 0, anyFs |-> FALSE,
+           reqLab |-> [m \in Mps |-> "none"]]
 \* history after an Init request with config tag c returned res; built = a filesystem was constructed
 HistAfterInit(h, c, res, built, st, lv) ==
     [inited |-> TRUE,
      initErr |-> res # "ok",
      unrestored |-> IF res = "ok" THEN {} ELSE {m \in Mps : RecordedIn(st, m) /\ lv[m] = <<>>},
      okCfg |-> IF res = "ok" THEN c ELSE 0,
-     anyFs |-> h.anyFs \/ built]
+     anyFs |-> h.anyFs \/ built,
+     reqLab |-> h.reqLab]
+\* reqLab after the request observed as l (pre-state mount tables lv0, post-state lv1)
+ReqLabNext(rl, l, lv0, lv1) ==
+    [m \in Mps |->
+        IF lv1[m] = <<>> THEN "none"
+        ELSE IF l.act = "Mount" /\ l.res = "ok" /\ l.mp = m THEN l.lab
+        ELSE IF lv0[m] = <<>> /\ l.act = "Init" /\ (\E i \in 1..Len(l.calls) : l.calls[i].mp = m)
+             THEN l.calls[CHOOSE i \in 1..Len(l.calls) : l.calls[i].mp = m].lab
+        ELSE rl[m]]
+WithReqLab(h, l, lv0, lv1) == [h EXCEPT !.reqLab = ReqLabNext(h.reqLab, l, lv0, lv1)]
 
 ErrResults == {"notready", "nofs", "err"}
 
@@ -111,6 +128,7 @@ Init ==
     /\ store = [m \in Mps |-> NoRec]
     /\ insts = <<>>
     /\ live = [m \in Mps |-> <<>>]
+    /\ liveLab = [m \in Mps |-> "none"]
     /\ epoch = 1 /\ ninit = 0
     /\ hist = NoHist
     /\ last = [act |-> "Start", res |-> "ok", calls |-> <<>>]
@@ -145,10 +163,11 @@ InitReq(fail, rf) ==
         /\ cur' = cur1
         /\ fsMap' = [m \in Mps |-> IF m \in okSet THEN cur1 ELSE fsMap[m]]
         /\ live' = live1
+        /\ liveLab' = [m \in Mps |-> IF m \in okSet THEN store[m].lab ELSE liveLab[m]]
         /\ UNCHANGED <<store, epoch>>
-        /\ hist' = HistAfterInit(hist, c, res, built, store, live1)
         /\ last' = [act |-> "Init", c |-> c, fail |-> fail, rf |-> rf, res |-> res,
                     calls |-> [i \in 1..Len(att) |-> Call(cur1, "Mount", att[i], store[att[i]].lab)]]
+        /\ hist' = WithReqLab(HistAfterInit(hist, c, res, built, store, live1), last', live, live1)
 
 Quiet(act, m, fsok, res) ==
     /\ UNCHANGED core
@@ -157,25 +176,31 @@ QuietMount(m, l, fsok, res) ==
     /\ UNCHANGED core
     /\ last' = [act |-> "Mount", mp |-> m, lab |-> l, fsok |-> fsok, res |-> res, calls |-> <<>>]
 
+\* storeFuseInfo: bucket.Put replaces whatever record the mountpoint had
+Put(st, m, l) == IF OverwriteRecord \/ ~RecordedIn(st, m) THEN [st EXCEPT ![m] = Rec(l, cfg)] ELSE st
+
 (* Server.Mount: readiness gate; mount() (skip if in fsMap, else curFs.Mount, fsMap.Store); storeFuseInfo with the
    request's labels and the CURRENT config - also when mount() skipped. *)
 MountReq(m, l, fsok) ==
     IF Refused THEN QuietMount(m, l, fsok, "notready")
     ELSE IF fsMap[m] # 0 /\ SkipServed THEN
-        /\ store' = [store EXCEPT ![m] = Rec(l, cfg)]
-        /\ UNCHANGED <<status, cfg, cur, fsMap, insts, live, epoch, ninit, hist>>
+        /\ store' = Put(store, m, l)
+        /\ UNCHANGED <<status, cfg, cur, fsMap, insts, live, liveLab, epoch, ninit>>
         /\ last' = [act |-> "Mount", mp |-> m, lab |-> l, fsok |-> fsok, res |-> "ok", calls |-> <<>>]
+        /\ hist' = WithReqLab(hist, last', live, live)
     ELSE IF cur = 0 THEN QuietMount(m, l, fsok, IF NilFsCheck THEN "err" ELSE "panic")
     ELSE
         /\ IF fsok
            THEN /\ fsMap' = [fsMap EXCEPT ![m] = cur]
                 /\ live' = [live EXCEPT ![m] = Append(@, cur)]
-                /\ store' = [store EXCEPT ![m] = Rec(l, cfg)]
-           ELSE /\ UNCHANGED <<fsMap, live>>
-                /\ store' = IF RecordOnlyMounted THEN store ELSE [store EXCEPT ![m] = Rec(l, cfg)]
-        /\ UNCHANGED <<status, cfg, cur, insts, epoch, ninit, hist>>
+                /\ liveLab' = [liveLab EXCEPT ![m] = l]
+                /\ store' = Put(store, m, l)
+           ELSE /\ UNCHANGED <<fsMap, live, liveLab>>
+                /\ store' = IF RecordOnlyMounted THEN store ELSE Put(store, m, l)
+        /\ UNCHANGED <<status, cfg, cur, insts, epoch, ninit>>
         /\ last' = [act |-> "Mount", mp |-> m, lab |-> l, fsok |-> fsok, res |-> IF fsok THEN "ok" ELSE "err",
                     calls |-> <<Call(cur, "Mount", m, l)>>]
+        /\ hist' = WithReqLab(hist, last', live, live')
 
 (* Server.Check: the instance found in fsMap checks; unknown mountpoint is an error *)
 CheckReq(m, fsok) ==
@@ -194,11 +219,13 @@ UnmountReq(m, fsok) ==
     ELSE LET t  == IF UseCreator THEN fsMap[m] ELSE cur
              ok == fsok /\ HasMounted(t, m) IN
         /\ live' = IF ok THEN [live EXCEPT ![m] = RemoveOne(@, t)] ELSE live
+        /\ liveLab' = IF ok /\ RemoveOne(live[m], t) = <<>> THEN [liveLab EXCEPT ![m] = "none"] ELSE liveLab
         /\ fsMap' = IF ok \/ ~KeepOnFailedUnmount THEN [fsMap EXCEPT ![m] = 0] ELSE fsMap
         /\ store' = IF (ok /\ ForgetOnUnmount) \/ (~ok /\ ~KeepOnFailedUnmount) THEN [store EXCEPT ![m] = NoRec] ELSE store
-        /\ UNCHANGED <<status, cfg, cur, insts, epoch, ninit, hist>>
+        /\ UNCHANGED <<status, cfg, cur, insts, epoch, ninit>>
         /\ last' = [act |-> "Unmount", mp |-> m, fsok |-> fsok, res |-> IF ok THEN "ok" ELSE "err",
                     calls |-> <<Call(t, "Unmount", m, "none")>>]
+        /\ hist' = WithReqLab(hist, last', live, live')
 
 (* the manager process dies (crash or kill) and a new one is started on the same store file *)
 ManagerRestart ==
@@ -207,6 +234,7 @@ ManagerRestart ==
     /\ status' = "wait" /\ cfg' = 0 /\ cur' = 0
     /\ fsMap' = [m \in Mps |-> 0]
     /\ live' = [m \in Mps |-> <<>>]
+    /\ liveLab' = [m \in Mps |-> "none"]
     /\ hist' = NoHist
     /\ UNCHANGED <<store, insts, ninit>>
     /\ last' = [act |-> "Restart", res |-> "ok", calls |-> <<>>]
@@ -220,6 +248,7 @@ Died(act, m, l, c) ==
     /\ status' = "wait" /\ cfg' = 0 /\ cur' = 0
     /\ fsMap' = [x \in Mps |-> 0]
     /\ live' = [x \in Mps |-> <<>>]
+    /\ liveLab' = [x \in Mps |-> "none"]
     /\ hist' = NoHist
     /\ UNCHANGED <<store, insts, ninit>>
     /\ last' = [act |-> act, mp |-> m, lab |-> l, res |-> "crash", calls |-> <<c>>]
@@ -235,7 +264,7 @@ CloseReq ==
     /\ status \in {"wait", "ready"}
     /\ status' = "closed"
     /\ store' = [m \in Mps |-> NoRec]
-    /\ UNCHANGED <<cfg, cur, fsMap, insts, live, epoch, ninit, hist>>
+    /\ UNCHANGED <<cfg, cur, fsMap, insts, live, liveLab, epoch, ninit, hist>>
     /\ last' = [act |-> "Close", res |-> "ok", calls |-> <<>>]
 
 \* canonical environment choices (every behaviour of the code is produced by exactly one of them)
@@ -274,6 +303,13 @@ RecordEqualsServing ==
         /\ Serving \subseteq RecordedSet
         /\ (RecordedSet \ Serving) \subseteq hist.unrestored
         /\ ((RecordedSet \ Serving) # {} => hist.initErr)
+
+\* ... and the recorded labels of a served mountpoint are labels it is served with: those of the filesystem-level mount
+\* that is live on it, or those of the last request that was answered "ok, mounted" for it (the two differ only when a
+\* Mount request names a mountpoint that is already served: mount() skips, storeFuseInfo records the request). A manager
+\* restart re-mounts with the RECORDED labels, so anything else silently changes what the mountpoint shows.
+RecordedLabelsServed ==
+    Quiescent => \A m \in Serving : Recorded(m) => store[m].lab \in {liveLab[m], hist.reqLab[m]}
 
 \* a served mountpoint is mounted once, by one instance, and that is the instance the manager's map names
 NoSecondMount == \A m \in Mps : Len(live[m]) <= 1
